@@ -41,12 +41,13 @@
 
 enum { S_IDLE, S_ASAP, S_TIMED, S_BATCH };
 enum { CX_RUN, CX_CLEAN, CX_CANCEL, CX_INTASK };
+#define INC_GHOST (-2) /* CX_CANCEL target that was only aws_task_init()-ed, never scheduled */
 
 enum {
     F_SCRIPT_NOW, F_SCRIPT_PAST, F_SCRIPT_CURRENT, F_SCRIPT_FUTURE, F_RESCHED_SELF, F_CANCEL_IN_BATCH, F_CANCEL_ASAP,
     F_CANCEL_TIMED, F_NESTED_CANCEL, F_EQUAL_TIMES, F_TIME_MAX, F_TIMED_ZERO, F_CLEANUP_PENDING, F_CLEANUP_LOOPED,
     F_RUN_BACKWARDS, F_NOT_DUE_LEFT, F_HEAP_GREW, F_MIXED_BATCH, F_SELF_CANCEL, F_CANCEL_NEW_IN_BATCH, F_JUST_EARLY,
-    F_EXACTLY_DUE, F_TOP_CANCEL, F_RUN_EMPTY
+    F_EXACTLY_DUE, F_TOP_CANCEL, F_RUN_EMPTY, F_CANCEL_UNSCHEDULED, F_CANCEL_UNSCHEDULED_HEAP
 };
 
 struct slot {
@@ -155,7 +156,7 @@ static const char *inc_str(int ii) {
     static int which;
     char *b = bufs[which++ & 3];
     if (ii < 0 || ii >= s_ninc) {
-        snprintf(b, 80, "(none)");
+        snprintf(b, 80, ii == INC_GHOST ? "(task never given to the scheduler)" : "(none)");
         return b;
     }
     const struct inc *in = &s_inc[ii];
@@ -379,6 +380,71 @@ static void do_cancel(int si) {
     }
 }
 
+/* Cancel of a task the scheduler has never seen (fresh from aws_task_init). Callers rely on this: the thread scheduler
+ * cancels hand-over-queue tasks this way. Its function is invoked once, as cancelled; every task that WAS handed to
+ * the scheduler must be left alone (check_top afterwards compares has_tasks/next time with the reference). */
+struct ghost {
+    int invocations;
+    int status;
+    struct aws_task *task;
+};
+
+static void ghost_fn(struct aws_task *task, void *arg, enum aws_task_status status) {
+    struct ghost *g = arg;
+    ++s_callbacks;
+    ++g->invocations;
+    g->status = (int)status;
+    hist(" [ghost:%c]", status == AWS_TASK_STATUS_CANCELED ? 'C' : status == AWS_TASK_STATUS_RUN_READY ? 'R' : '?');
+    struct ctx *top = s_ncx ? &s_cx[s_ncx - 1] : NULL;
+    if (g->task != task) {
+        VIOL("C07:cancel-unscheduled-arg", "never-scheduled task invoked with aws_task %p, expected %p", (void *)task,
+             (void *)g->task);
+    }
+    if (!top || top->kind != CX_CANCEL || top->inc != INC_GHOST) {
+        VIOL("C07:unexpected-invocation", "never-scheduled task invoked (status %d) outside its own cancel_task call", (int)status);
+    } else if (top->delivered) {
+        VIOL("C07:invoked-twice", "never-scheduled task invoked again by its cancel_task (invocation %d)", g->invocations);
+    } else {
+        top->delivered = true;
+        if (status != AWS_TASK_STATUS_CANCELED) {
+            VIOL("C07:cancel-status", "cancel_task(never-scheduled task) invoked it with status %d", (int)status);
+        }
+    }
+}
+
+static void do_cancel_unscheduled(void) {
+    if (s_ncx >= MAX_CX - 2) {
+        return;
+    }
+    struct ghost g = {0, -1, NULL};
+    struct aws_task *task = malloc(sizeof(struct aws_task));
+    memset(task, 0xA5, sizeof(*task));
+    aws_task_init(task, ghost_fn, &g, "c07-unscheduled");
+    g.task = task;
+    mon_fp(0x21);
+    mon_flag(F_CANCEL_UNSCHEDULED);
+    if (count_state(S_TIMED)) {
+        mon_flag(F_CANCEL_UNSCHEDULED_HEAP);
+        mon_count("cancel_of_never_scheduled_task_while_timed_pending", 1);
+    }
+    hist(" cancel(ghost){");
+    s_cx[s_ncx].kind = CX_CANCEL;
+    s_cx[s_ncx].inc = INC_GHOST;
+    s_cx[s_ncx].delivered = false;
+    int my = s_ncx++;
+    aws_task_scheduler_cancel_task(&s_sched, task);
+    bool delivered = s_cx[my].delivered;
+    s_ncx = my;
+    hist("}");
+    if (!delivered) {
+        VIOL("C07:cancel-not-invoked", "cancel_task(never-scheduled task) returned without invoking it (%d timed, %d run-now pending)",
+             count_state(S_TIMED), count_state(S_ASAP));
+    }
+    if (mon_violations() == s_viol0) {
+        free(task); /* on divergence the library may still reference it */
+    }
+}
+
 /* ------------------------------------------------------------------ the task function */
 static void check_run_position(int ii, enum aws_task_status status) {
     struct inc *in = &s_inc[ii];
@@ -508,7 +574,7 @@ static void task_fn(struct aws_task *task, void *arg, enum aws_task_status statu
     hist("]");
 }
 
-enum { A_NOW, A_PAST, A_CUR, A_FUT, A_CANCEL, A_SELF };
+enum { A_NOW, A_PAST, A_CUR, A_FUT, A_CANCEL, A_SELF, A_GHOST };
 
 static uint64_t script_time(struct mon_rng *r, int kind) {
     switch (kind) {
@@ -545,6 +611,9 @@ static void run_script(struct slot *sl, struct aws_task *task, int ii, enum aws_
     for (int a = 0; a < nact; ++a) {
         unsigned k = (unsigned)mon_below(r, 10);
         acts[a] = k < 2 ? A_NOW : k < 3 ? A_PAST : k < 5 ? A_CUR : k < 6 ? A_FUT : A_CANCEL;
+        if (acts[a] == A_CANCEL && mon_chance(r, 1, 8)) {
+            acts[a] = A_GHOST;
+        }
     }
     bool self = may_schedule && mon_chance(r, 1, 6);
     if (self) {
@@ -581,6 +650,10 @@ static void run_script(struct slot *sl, struct aws_task *task, int ii, enum aws_
             hist(" self->%s", inc_str(ni));
             s_saw_reentrant = true;
             ++s_script_actions;
+        } else if (act == A_GHOST) {
+            s_saw_reentrant = true;
+            ++s_script_actions;
+            do_cancel_unscheduled();
         } else if (act == A_CANCEL) {
             int cand[MAX_SLOTS], nc = 0;
             bool prefer_batch = mon_chance(r, 1, 2);
@@ -999,7 +1072,11 @@ static void run_case(uint64_t case_idx) {
                 }
             }
             what = "cancel_task";
-            if (nc) {
+            if (mon_chance(r, 1, 6)) {
+                what = "cancel_task(never scheduled)";
+                s_nlog = 0;
+                do_cancel_unscheduled();
+            } else if (nc) {
                 s_nlog = 0;
                 do_cancel(cand[mon_below(r, (uint64_t)nc)]);
             }
@@ -1056,7 +1133,8 @@ int main(int argc, char **argv) {
         "clean_up_with_pending_tasks", "clean_up_ran_task_scheduled_during_clean_up", "run_all_time_decreased",
         "run_all_left_not_due_tasks", "heap_grew_beyond_default", "batch_with_run_now_and_timed", "task_cancels_its_own_reschedule",
         "cancel_of_task_scheduled_during_batch", "task_due_one_tick_after_run_all_time", "task_due_exactly_at_run_all_time",
-        "top_level_cancel", "run_all_with_nothing_due"};
+        "top_level_cancel", "run_all_with_nothing_due", "cancel_of_never_scheduled_task",
+        "cancel_of_never_scheduled_task_while_heap_nonempty"};
     for (int i = 0; i < (int)(sizeof(names) / sizeof(names[0])); ++i) {
         mon_flag_name(i, names[i]);
     }
